@@ -190,3 +190,30 @@ Qed.
 (* the hypotheses of the theorems are satisfiable *)
 Lemma scenario_example : exists frs st, scen_ok frs st /\ 1 < total_len frs /\ at_fdopen frs 0 = false.
 Proof. exists [wit_frag], wit_state. split; [apply wit_scen|]. split; [vm_compute; lia|reflexivity]. Qed.
+
+(* ---------------------------------------------------------------- the EEXIST retry of _GD_MakeTempFile *)
+(* open(O_CREAT|O_EXCL) failing (EEXIST: the name mktemp produced is taken) has
+   no effect and the loop tries another name: a trace that contains any number
+   of such failed creations in front of a fragment's calls passes through
+   exactly the states of the trace without them *)
+Definition failed_creats (d : fd) (names : list path) : list tstep :=
+  map (fun q => bad (Creat d q 438%N)) names.
+
+Lemma failed_creats_run : forall d names st, run (failed_creats d names) st = st.
+Proof. induction names; intros; simpl; auto. Qed.
+
+Lemma eexist_retry_lemma : forall d names tr st j,
+  crash (failed_creats d names ++ tr) j st = crash tr (j - length names) st.
+Proof.
+  intros d names tr st j. unfold crash.
+  assert (L : length (failed_creats d names) = length names) by (unfold failed_creats; apply map_length).
+  destruct (Nat.le_gt_cases j (length names)) as [H | H].
+  - rewrite firstn_app_le by lia. replace (j - length names) with 0 by lia. simpl.
+    rewrite <- (firstn_skipn j (failed_creats d names)) at 1.
+    assert (E : firstn j (failed_creats d names) = failed_creats d (firstn j names)).
+    { unfold failed_creats. now rewrite firstn_map. }
+    rewrite firstn_app, firstn_firstn, Nat.min_id. rewrite firstn_length.
+    replace (j - Nat.min j (length (failed_creats d names))) with 0 by lia. simpl. rewrite app_nil_r.
+    rewrite E. apply failed_creats_run.
+  - rewrite firstn_app_ge by lia. rewrite run_app, failed_creats_run. now rewrite L.
+Qed.
